@@ -22,15 +22,18 @@ class Bar:
         # Adjust sequence
         self.sequence.normalise()
 
-        # Assert bar has correct capacity
-        if self.sequence.get_sequence_duration_relation() > self.time_signature_numerator * PPQN / (
-                self.time_signature_denominator / 4):
+        # Assert bar has correct capacity (in ticks)
+        capacity = self.time_signature_numerator * PPQN / (self.time_signature_denominator / 4)
+        if not float(capacity).is_integer():
+            raise BarException("Bar capacity is not a whole number of ticks")
+        capacity = int(capacity)
+
+        if self.sequence.get_sequence_duration_relation() > capacity / PPQN:
             raise BarException("Bar capacity exceeded")
 
         # Pad bar
-        if self.sequence.get_sequence_duration_relation() < self.time_signature_numerator * PPQN / (
-                self.time_signature_denominator / 4):
-            self.sequence.pad(self.time_signature_numerator * PPQN / (self.time_signature_denominator / 4))
+        if self.sequence.get_sequence_duration_relation() < capacity / PPQN:
+            self.sequence.pad(capacity)
 
         # Assert time signature is consistent
         time_signatures = [msg for msg in self.sequence.messages_rel() if
